@@ -135,7 +135,7 @@ def writer_closure(repo: Repo, cls_names, roots) -> set:
                 if (cn, mname) in allowed or not mname.startswith('_') or (mname.startswith('__') and mname.endswith('__')):
                     continue
                 callers = sites.get(mname, []) + sites.get(f'_{cn}{mname}', [])
-                if callers and all((cc, cm) in allowed or (cc in cls_names and (cn, cm) in allowed) for cc, cm in callers):
+                if callers and all((cc, cm) in allowed or (cc in cls_names and ((cn, cm) in allowed or any((c3, cm) in allowed for c3 in cls_names))) for cc, cm in callers):
                     allowed.add((cn, mname))
                     changed = True
     return allowed
